@@ -476,3 +476,15 @@ package model
 //@   ensures C07.tr.len: err == nil ==> len(out) == len(b)
 //@   ensures C07.tr.head: err == nil ==> be16(out, 0) == be16(b, 0) && out[2] == b[2] && be16(out, 3) == be16(b, 3)
 //@   ensures C07.tr.ids: err == nil ==> forall(k, 0, int(be16(b, 3)), be32(out, 5+4*k) == be32(b, 5+4*k))
+
+// ---------------------------------------------------------------------------------------------
+// C08, additional item 0x05 (tyre pressure, 30 bytes): tyre k has a value exactly when byte k is non-zero, and the
+// value is that byte - for every position, also after an empty slot.
+// ---------------------------------------------------------------------------------------------
+//@ func (*T0x0200AdditionDetails).parseTirePressure
+//@   requires C08.len: len(content) <= 256
+//@   ensures C08.tyres: forallb(k, 8, int(k) < len(content) ==> iff(has(result.Values, k), content[int(k)] != 0) && (content[int(k)] != 0 ==> result.Values[k] == content[int(k)]))
+//@   ensures C08.notyres: forallb(k, 8, int(k) >= len(content) ==> !has(result.Values, k))
+//@   loop 1 invariant idx: 0 - 1 <= rangeindex && rangeindex < len(content)
+//@   loop 1 invariant tyres: forallb(k, 8, int(k) <= rangeindex ==> iff(has(tmp.Values, k), content[int(k)] != 0) && (content[int(k)] != 0 ==> tmp.Values[k] == content[int(k)]))
+//@   loop 1 invariant notyres: forallb(k, 8, int(k) > rangeindex ==> !has(tmp.Values, k))
